@@ -19,6 +19,7 @@ RULE = ('Exhaustive: every string over {A,T,N,a} and over {A,C,G,T} up to length
         'set, dense (k<=10; k 11-12 sampled) and default accumulators; in 3 of 5 cases preceded by calls that fail part-way (wrong-typed / non-ASCII later sequence), which must leave no trace. Oracle R-KMER: literal scan of each strand (reverse complement '
         'built explicitly), Python-int base-4 code; values, dtype and strict monotonicity compared. Non-trivial: expected signature '
         'non-empty; distinct by case hash (enumerated strings are distinct by construction).')
+RULE += ' Further generated dimensions: the KmerSpec object reached in 8 legal ways; one-shot iterables with explicit accumulators; accumulator objects re-used with and without clear(); (rare) a 1.6 M-nucleotide C/G sequence with prefix occurrences planted around power-of-two / power-of-ten offsets, forward and reverse-complemented.'
 ASSUMPTIONS = ['str inputs are ASCII (seq_to_bytes encodes str as ASCII; non-ASCII str is outside the accepted domain)',
                'the dense accumulator is exercised for k <= 12 only (it allocates 4^k bytes)']
 ENUMERATED = {'quick': ['all strings of length <= 6 over {A,T,N,a} and {A,C,G,T} x 18 (k,prefix) specs (196596 evaluations)'],
